@@ -162,12 +162,30 @@ class Ctx:
         return wsgi.call(self.app, env)
 
 
-IMS = ['absent', 'before', 'equal', 'after', 'garbage']
+IMS = ['absent', 'before', 'equal', 'after', 'garbage',
+       # the other two HTTP-date spellings (RFC 7231 7.1.1.1) and the historic "; length=" suffix
+       'equal-850', 'equal-asctime', 'equal-length', 'after-850', 'after-asctime', 'before-850', 'before-asctime']
+
+
+def http_date(ts, form):
+    import time as _t
+    g = _t.gmtime(ts)
+    if form == '850':
+        return _t.strftime('%A, %d-%b-%y %H:%M:%S GMT', g)
+    if form == 'asctime':
+        return _t.strftime('%a %b ', g) + '%2d' % g.tm_mday + _t.strftime(' %H:%M:%S %Y', g)
+    if form == 'length':
+        return formatdate(ts, usegmt=True) + '; length=5'
+    return formatdate(ts, usegmt=True)
 
 
 def ims_value(kind, mtime=MTIME):
-    return {'absent': None, 'before': formatdate(mtime - 1, usegmt=True), 'equal': formatdate(mtime, usegmt=True),
-            'after': formatdate(mtime + 1, usegmt=True), 'garbage': 'yesterday-ish'}[kind]
+    if kind == 'absent':
+        return None
+    if kind == 'garbage':
+        return 'yesterday-ish'
+    rel, _, form = kind.partition('-')
+    return http_date(mtime + {'before': -1, 'equal': 0, 'after': 1}[rel], form)
 
 
 ZONES = ['CET-1CEST,M3.5.0,M10.5.0/3', 'EST5EDT,M3.2.0,M11.1.0', 'IST-5:30', 'NZST-12NZDT,M9.5.0,M4.1.0/3', 'UTC0']
@@ -182,7 +200,7 @@ def judge(c, n, rng, ims_kind, method, buf):
         return 'wsgi', '; '.join(probs[:2])
     code = c.code
     body = c.body
-    if ims_kind in ('equal', 'after'):
+    if ims_kind.startswith(('equal', 'after')):
         if code != 304 or body:
             return 'ims', f'If-Modified-Since {ims_kind} mtime answered {code} with {len(body)} body bytes, expected an empty 304'
         return None
